@@ -41,9 +41,9 @@ CLAIMED = {
  ),
  "C16": dict(
    category="exploration",
-   text="SCOPED to the surfaces that meet a device: serde encodings of Limb, Uint (1..8,16,32 limbs), Wrapping, Checked, NonZero, Odd, ConstMontyForm through a simulator-owned serde format (binary and human-readable, three visitor delivery styles, serializer/deserializer error injection, type confusion, payload faults incl. every truncation offset), bincode and serde_json; Display/LowerHex/UpperHex/Binary/Debug through a text sink of every capacity 0..len; the Encoding::{to,from}_{le,be}_bytes routes that feed them, checked positionally; and byte / hex records written by to_{be,le}_bytes at the stated size (BYTES, ceil(precision/8) for BoxedUint precisions 0..=520 resp. ..=2100, 2*BYTES hex digits), torn / extended / corrupted on the storage medium (0-2 faults, or every record length 0..=size+9) and read back through Uint::from_{be,le}_slice, Uint::from_{be,le}_hex, Int::from_be_hex, BoxedUint::from_{be,le}_slice and BoxedUint::from_be_hex. Oracles: round trip; a faulted serde record is rejected or re-serializes to itself; size; positional expansion; a slice / hex record is accepted exactly when it is well-formed of the stated size, with its positional value, and the boxed decoders answer InputSize / Precision exactly as documented; sink content is a prefix of the full text and a refusal is reported as Err.",
+   text="SCOPED to the surfaces that meet a device: serde encodings of Limb, Uint (1..8,16,32 limbs), Wrapping, Checked, NonZero, Odd, ConstMontyForm through a simulator-owned serde format (binary and human-readable, three visitor delivery styles, serializer/deserializer error injection, type confusion, payload faults incl. every truncation offset), bincode and serde_json; Display/LowerHex/UpperHex/Binary/Debug through a text sink of every capacity 0..len; the Encoding::{to,from}_{le,be}_bytes routes that feed them, checked positionally; and byte / hex records written by to_{be,le}_bytes at the stated size (BYTES, ceil(precision/8) for BoxedUint precisions 0..=520 resp. ..=2100, 2*BYTES hex digits), torn / extended / corrupted on the storage medium (0-2 faults, or every record length 0..=size+9) and read back through Uint::from_{be,le}_slice, Uint::from_{be,le}_hex, Int::from_be_hex, BoxedUint::from_{be,le}_slice and BoxedUint::from_be_hex. BoxedUint::from_words is fed by a simulated word source with exact, loose and absent size hints. Oracles: round trip; a faulted serde record is rejected or re-serializes to itself; size; positional expansion; a slice / hex record is accepted exactly when it is well-formed of the stated size, with its positional value, and the boxed decoders answer InputSize / Precision exactly as documented; sink content is a prefix of the full text and a refusal is reported as Err.",
    design_ref="DESIGN.md section 4, C16",
-   note="NOT decided here (conversions with no record, device or fault in them, out of reach of this technique): From<primitive>/Int::from_i*, to/from words, concat/split/resize/widen/shorten. Fixed-width slice decoders and hex decoders refuse by panicking; that is an accepted refusal. Trusted: to_words()/from_words() bridge, the simulator's serde format and sink, bincode/serde_json framing.",
+   note="NOT decided here (conversions with no record, device or fault in them, out of reach of this technique): From<primitive>/Int::from_i*, Uint to/from words, concat/split/resize/widen/shorten. Fixed-width slice decoders and hex decoders refuse by panicking; that is an accepted refusal. Trusted: to_words()/from_words() bridge, the simulator's serde format and sink, bincode/serde_json framing.",
    technique="deterministic simulation: serialize / encode -> simulated medium with token/payload/record faults and device error injection -> deserialize / decode, against the documented answer; fmt into capacity-limited sink at every capacity",
  ),
  "C18": dict(
